@@ -744,7 +744,8 @@ fn restart(ctx: &mut Ctx, s: &mut Session) -> Step {
             if q.validity().is_err() {
                 continue;
             }
-            if let Ok(vb) = op(Op::Parse, || sut::to_board(&q)) {
+            let loaded = op(Op::Parse, || sut::to_board(&q)).ok().filter(|vb| op(Op::Print, || sut::load_mismatch(vb, &q)).is_none());
+            if let Some(vb) = loaded {
                 ctx.stats.bump("c04.component-probes");
                 let (z1, h1) = op(Op::Hash, || (vb.zobrist(), trait_hash(&vb)));
                 if z1 == z0 {
